@@ -108,10 +108,11 @@ def realKeyEnv : KeyEnv where
 
 /-- `realEnv` with the two decodings of `text` computed once (what `parseable_str.cache` does) -/
 def memoEnv (text : String) : Env :=
-  let d58 := realEnv.b58cDec text
+  let d58 := realEnv.b58cDec .sha256d text
+  let d58g := realEnv.b58cDec .groestl text
   let d32 := realEnv.bech32Parse text
   { realEnv with
-    b58cDec := fun s => if s = text then d58 else realEnv.b58cDec s
+    b58cDec := fun k s => if s = text then (match k with | .sha256d => d58 | .groestl => d58g) else realEnv.b58cDec k s
     bech32Parse := fun s => if s = text then d32 else realEnv.bech32Parse s }
 
 def showExcept {α} (f : α → String) : Except Err α → String
@@ -149,6 +150,12 @@ def history (text steps : String) : Option String := do
 
 def handle : Handler := fun op args =>
   match op, args with
+  -- `c18made`: the same call, on a text the network's own producer of that kind wrote (the harness then insists on acceptance)
+  | "c18made", [net, entry, text] => do
+    let net ← findNet net
+    let text ← parseText? text
+    let r ← parseEntry (memoEnv text) realKeyEnv net entry text
+    some (showPOut net r)
   | "c18parse", [net, entry, text] => do
     let net ← findNet net
     let text ← parseText? text
